@@ -77,6 +77,9 @@ func checkCmd(args []string) int {
 		cr.CheckFS()
 		cr.CheckCorpusCompiles(corpusDir)
 		return cr.Finish("proof", checkerCmd, commonTrusted, "Layer G: ensures[C01] clauses of WriteToFile/RenderToFile (success => the written text was accepted and formatted by imports.Process), all inputs. Bounded stand-in (not counted as discharged): every corpus package generated with exit 0 must load and type-check")
+	case "C12":
+		cr.CheckDeterminism()
+		return cr.Finish("proof", checkerCmd, append(commonTrusted, "the structural order-independence rules of engine/vc/determinism.go"), "one obligation per nondeterminism source (map range, maps.Keys, environment/clock/random read, goroutine/select) in every function reachable from the generator entry points; each map range must fit an order-independence rule")
 	case "C19":
 		cr.CheckFS()
 		return cr.Finish("proof", checkerCmd, commonTrusted, "one obligation per (function, return site, ensures clause) of WriteToFile / RenderToFile / Generate over the ghost file system, plus the call-graph scan for file-system writers; all pre-states and invocations are quantified")
